@@ -387,7 +387,7 @@ def run_small(task, tier, seed, col):
 # ------------------------------------------------------------------------------------- larger random trees, all numeric types
 
 def _large_strategy(nit):
-    nums = ["2", "3", "7", "10", "0.5", "1e3", "1.5e-2", "4.0"]
+    nums = ["2", "3", "7", "10", "0.5", "1e3", "1.5e-2", "4.0", "1_000", "2_0"]  # (digit-group underscores are one NUMBER token for the tokenizer)
     names = ["m", "s", "kg", "percent", "meter", "second", "km", "ms"]
     leaf = st.one_of(st.sampled_from([N(x) for x in nums]), st.sampled_from([U(x) for x in names]))
 
@@ -671,7 +671,7 @@ def replay(sub, case):
 # ------------------------------------------------------------------------------------- coverage-guided fuzzing (thorough tier)
 
 FUZZ_NAMES = {"m", "s", "kg", "meter", "second"}
-_NUM_RE = re.compile(r"^(\d+\.\d*|\.\d+|\d+)([eE][+-]?\d+)?$")
+_NUM_RE = re.compile(r"^(\d+(_\d+)*\.\d*|\.\d+|\d+(_\d+)*)([eE][+-]?\d+)?$")
 _PLAIN_ALPHABET = set("0123456789.+-*/() \tmskgetrcond")
 _AST_OPS = None
 
